@@ -74,6 +74,8 @@ STRENGTHENED = {
     # wave 5
     "C04-11": "same change as C04-2 (third independent delivery)",
     "C06-10": "request failing_defer_owns_streaming_child (a failing deferred fragment whose nested fragment completed early and owns a stream)",
+    "C12-11": "seeds with a forbidden @skip / @include on a subscription root field, alone and next to a second subscription (max_errors prefix law)",
+    "C19-10": "NOT CAUGHT: directive extensions (experimental) that target a SPECIFIED directive are not in the extension menu; on the clean tree extend_schema applies such an extension while build_schema(A+B) drops it (reported, not repaired), so the extend-equals-build oracle cannot be applied to them yet",
     "C20-3": "schemas derived (to_kwargs / sort / extend) from an already validated invalid schema",
     "C20-5": "default cycles through lists nested inside a default object (3 entries + 1 legal near miss)",
 }
